@@ -1,6 +1,7 @@
 package gojq
 
 import (
+	"errors"
 	"math/big"
 	"sync"
 )
@@ -27,6 +28,10 @@ var c05Progs = []string{
 	`[range(3)] as $a | ($a + [10], $a + [20])`, `[range(3)] as $a | [$a + [10], $a + [20]]`, `[.[]?] as $a | ($a + [1], $a + [2])`, `[.[]?] | (. + [1]), (. + [2])`, `. as $a | [$a[:1] + [10], $a[:1] + [20], $a]?`, `[$v[]] as $a | [$a + ["x"], $a + ["y"], $a]`,
 	`[.[]?] | [. + [1], . + [2]] | .[0]`, `[limit(3; repeat(1))] as $a | [$a + [2], $a + [3]]`, `(. // []) as $a | [$a + [[1]], $a + [[2]]]?`, `[.[]?] as $a | $a + [1] | [., $a + [2]]`,
 	`$v`, `$v | .[0] = 9`, `$v | del(.[0])`, `[$v, $v] | .[0][0] = 1`, `. as $x | $v | .[1:] = $x?`, `$v + .?`, `[$v[]?] | sort`, `$v | map(. )`, `$v | .[0] += 1`, `[., $v] | del(.[][0]?)`,
+	`[range(3)] as $x | [([$x, ["a"]] | add), ([$x, ["b"]] | add)]`, `[.[]?] as $x | ([$x, [1]] | add), ([$x, [2]] | add)`, `[$v[]] as $x | [[$x, ["p"]], [$x, ["q"]]] | map(add)`, `[[.[]?], [1]] | add, add`,
+	// patterns and flags taken from the input: the regexp cache is keyed by the pair
+	`. as {s: $s, re: $re, flags: $f} ?// $s | try ($s | test($re; $f)) catch "e"`, `. as {s: $s, re: $re, flags: $f} ?// $s | [try ($s | match($re; $f) | .string) catch "e"]`, `[.s?, .re?, .flags?] as [$s, $re, $f] | try ($s | [splits($re; $f)]) catch "e"`,
+	`(.s? // "xag") | [(try (match("a"; "g") | .string) catch "e"), (try (match("ag") | .string) catch "e")]`, `try ("Hi" | [test("h"; "i"), test("hi")]) catch "e"`,
 	// integers beyond 64 bits: literals in the code, values in the input, in-place arithmetic
 	`10000000000000000000 * .?`, `. * 10000000000000000000?`, `10000000000000000000 + .?`, `10000000000000000000 - .?`, `10000000000000000000 % 7`, `10000000000000000000 / 10`,
 	`-10000000000000000000 | abs`, `[-10000000000000000000 | abs, .]`, `-100000000000000000000 | [abs, length, -., .]`, `10000000000000000000 | -(.)`, `[10000000000000000000 | ., . * 3, .]`,
@@ -39,7 +44,9 @@ var c05Progs = []string{
 	`[limit(2; range(5))]`, `[range(0; 3)]`, `path(..)`, `[path(.a[0]?)]`, `paths`, `paths(type == "number")`, `any`, `all`, `isempty(.[]?)`, `env`, `$ENV`, `builtins | length`, `halt_error?`, `error?`, `try error catch .`,
 }
 
-func c05Input() any {
+func c05Input() any { return c05InputK(nondetChoice(14)) }
+
+func c05InputK(shape int) any {
 	// leaves: symbolic small ints; one shape mixes null and a symbolic string
 	leaf := func() any {
 		if vparam("mixedleaves", 0) == 1 {
@@ -47,7 +54,7 @@ func c05Input() any {
 		}
 		return hSmallInt()
 	}
-	switch nondetChoice(10) {
+	switch shape {
 	case 0:
 		return map[string]any{"a": map[string]any{"b": hSmallInt()}, "c": []any{1, 2}}
 	case 1:
@@ -73,6 +80,14 @@ func c05Input() any {
 		return []any{neg, pos, neg}
 	case 9:
 		return []any{leaf(), 1, []any{leaf(), leaf()}, []any{[]any{1}}}
+	case 10:
+		return map[string]any{"s": "Xag", "re": "x", "flags": "i"}
+	case 11:
+		return map[string]any{"s": "Xag", "re": "xi", "flags": nil}
+	case 12:
+		return map[string]any{"s": "Xag", "re": "a", "flags": "g"}
+	case 13:
+		return map[string]any{"s": "Xag", "re": "ag", "flags": nil}
 	default:
 		return []any{}
 	}
@@ -113,7 +128,10 @@ func hCodeConsts(c *Code) []any {
 	return out
 }
 
-func c05Code(k int) *Code { return vmemo_compileVars(c05Progs[k], "$v") }
+// two variables: the values reach Run as ONE slice owned by the caller (code.Run(in, vals...))
+func c05Code(k int) *Code { return vmemo_compileVars(c05Progs[k], "$v,$w") }
+
+func c05Vals(v any) []any { return []any{v, "w"} }
 
 func c05Pick() int {
 	lo, hi := vparam("from", 0), vparam("to", len(c05Progs))
@@ -138,12 +156,13 @@ func H_C05_iso() {
 	v := []any{hSmallInt(), []any{hSmallInt()}}
 	inSnap, vSnap := hDeepCopy(input), hDeepCopy(v)
 	consts := hCodeConsts(code)
-	full := hFull([]any{input, v, consts})
+	vals := c05Vals(v)
+	full := hFull([]any{input, vals, consts})
 	vfreeze(code)
 	vfreeze(input)
-	vfreeze(v)
+	vfreeze(vals)
 	vmonitor(1)
-	it := code.Run(input, v)
+	it := code.Run(input, vals...)
 	var outs, snaps []any
 	for n := 0; n < 6; n++ {
 		o, ok := it.Next()
@@ -168,8 +187,8 @@ func H_C05_iso() {
 		}
 	}
 	// second run, same objects, and third run on equal fresh copies: identical sequences
-	again := hRun(code, input, 6, v)
-	fresh := hRun(code, hDeepCopy(inSnap), 6, hDeepCopy(vSnap))
+	again := hRun(code, input, 6, vals...)
+	fresh := hRun(code, hDeepCopy(inSnap), 6, c05Vals(hDeepCopy(vSnap))...)
 	vassert(len(again) == len(outs) && len(fresh) == len(outs), "re-run yields the same number of outputs")
 	if len(again) == len(outs) && len(fresh) == len(outs) {
 		for n := range outs {
@@ -183,7 +202,7 @@ func H_C05_iso() {
 			}
 		}
 	}
-	vassert(hIdentical(hFull([]any{input, v, consts}), full), "nothing reachable from the input, the variables or the code's constants was written, spare capacity included")
+	vassert(hIdentical(hFull([]any{input, vals, consts}), full), "nothing reachable from the input, the variables (and the slice that carries them) or the code's constants was written, spare capacity included")
 	vreach("end")
 }
 
@@ -201,31 +220,36 @@ func H_C06_shared() {
 	v := []any{hSmallInt(), []any{hSmallInt()}}
 	if vnative() {
 		consts := hCodeConsts(code)
-		full := hFull([]any{input, v, consts})
-		alone := hRun(code, hDeepCopy(input), 6, hDeepCopy(v))
+		vals := c05Vals(v)
+		full := hFull([]any{input, vals, consts})
+		alone := hRun(code, hDeepCopy(input), 6, c05Vals(hDeepCopy(v))...)
 		var wg sync.WaitGroup
 		bad := make([]bool, 4)
+		start := make(chan struct{})
 		for g := 0; g < 4; g++ {
 			wg.Add(1)
 			go func(g int) {
 				defer wg.Done()
+				<-start
 				for r := 0; r < 50; r++ {
-					if !c06Same(hRun(code, input, 6, v), alone) {
+					if !c06Same(hRun(code, input, 6, vals...), alone) {
 						bad[g] = true
 					}
 				}
 			}(g)
 		}
+		close(start)
 		wg.Wait()
 		vassert(!bad[0] && !bad[1] && !bad[2] && !bad[3], "every concurrent run yields what the run yields alone")
-		vassert(hIdentical(hFull([]any{input, v, consts}), full), "the shared input, variables and code constants are unchanged after the concurrent runs")
+		vassert(hIdentical(hFull([]any{input, vals, consts}), full), "the shared input, variables and code constants are unchanged after the concurrent runs")
 		return
 	}
+	vals := c05Vals(v)
 	vfreeze(code)
 	vfreeze(input)
-	vfreeze(v)
+	vfreeze(vals)
 	vmonitor(2)
-	hRun(code, input, 6, v)
+	hRun(code, input, 6, vals...)
 	vmonitor(0)
 	vreach("end")
 }
@@ -275,10 +299,12 @@ func H_C06_query() {
 		alone := run()
 		var wg sync.WaitGroup
 		bad := make([]bool, 4)
+		start := make(chan struct{})
 		for g := 0; g < 4; g++ {
 			wg.Add(1)
 			go func(g int) {
 				defer wg.Done()
+				<-start
 				for r := 0; r < 30; r++ {
 					if !c06Same(run(), alone) {
 						bad[g] = true
@@ -286,6 +312,7 @@ func H_C06_query() {
 				}
 			}(g)
 		}
+		close(start)
 		wg.Wait()
 		vassert(!bad[0] && !bad[1] && !bad[2] && !bad[3], "every concurrent Query.Run yields what it yields alone")
 		vassert(q.String() == text, "the syntax tree is unchanged")
@@ -295,6 +322,126 @@ func H_C06_query() {
 	vfreeze(input)
 	vmonitor(2)
 	run()
+	vmonitor(0)
+	vreach("end")
+}
+
+// H_C05_history: no state leaks from one run to the next: the same *Code run on an input A
+// and then on another input B yields for B exactly what a freshly compiled *Code yields
+// for B (interleaving with other inputs; regexps whose pattern and flags come from the input).
+func H_C05_history() {
+	k := c05Pick()
+	vlabel("prog", c05Progs[k])
+	code := c05Code(k)
+	if code == nil {
+		return
+	}
+	a, b := c05InputK([]int{1, 3, 10, 12}[nondetChoice(4)]), c05Input()
+	v := []any{1, []any{2}}
+	bSnap := hDeepCopy(b)
+	hRun(code, a, 6, c05Vals(v)...)
+	second := hRun(code, b, 6, c05Vals(hDeepCopy(v))...)
+	fresh, err := Compile(vmemo_parse(c05Progs[k]), WithVariables([]string{"$v", "$w"}))
+	if err != nil {
+		return
+	}
+	alone := hRun(fresh, bSnap, 6, c05Vals(hDeepCopy(v))...)
+	vassert(c06Same(second, alone), "a run yields what it yields on a freshly compiled query, whatever the same *Code ran before")
+	vreach("end")
+}
+
+// ---- C06: a *Code compiled with options (module loader, environment, custom functions) ----
+
+type c06loader struct{ mods map[string]string }
+
+func (l *c06loader) LoadModule(name string) (*Query, error) {
+	src, ok := l.mods[name]
+	if !ok {
+		return nil, errors.New("module not found: " + name)
+	}
+	return Parse(src)
+}
+
+var c06OptProgs = []string{
+	`"m" | modulemeta`, `[("m", "n") | modulemeta | .defs]`, `[.[]? | modulemeta? | {name, defs}]`, `[limit(2; repeat("m" | modulemeta | .name))]`, `env`, `$ENV.A`, `[env, $ENV] | length`,
+	`twice`, `[.[]? | twice?]`, `import "m" as m; m::f`, `import "m" as m; [m::f, ("n" | modulemeta | .defs)]`, `include "n"; g | twice?`, `"zz" | try modulemeta catch "nf"`, `[("m", "m", "n") | modulemeta | .deps | length]`,
+}
+
+// H_C06_options: the capabilities granted by options live in the compiled code as well
+// (the module loader behind modulemeta, the environment, custom functions): running such a
+// *Code writes nothing into memory that existed before the run. Natively 4 goroutines x 50
+// runs under the race detector.
+func H_C06_options() {
+	k := nondetChoice(len(c06OptProgs))
+	vlabel("prog", c06OptProgs[k])
+	q := vmemo_parse(c06OptProgs[k])
+	if q == nil {
+		return
+	}
+	loader := &c06loader{map[string]string{"m": `module {name: "m"}; import "n" as n; def f: n::g; def f(x): x;`, "n": `module {name: "n"}; def g: 1; def h(a; b): a;`}}
+	code, err := Compile(q, WithModuleLoader(loader), WithEnvironLoader(func() []string { return []string{"A=1", "B=2"} }),
+		WithFunction("twice", 0, 0, func(v any, _ []any) any {
+			if n, ok := v.(int); ok {
+				return 2 * n
+			}
+			return v
+		}))
+	if err != nil {
+		vreach("compile-error")
+		return
+	}
+	var input any
+	switch nondetChoice(3) {
+	case 0:
+		input = hSmallInt()
+	case 1:
+		input = []any{"m", "n", hSmallInt()}
+	default:
+		input = nil
+	}
+	if vnative() {
+		alone := hRun(code, hDeepCopy(input), 6)
+		ok := true
+		for attempt := 0; attempt < 20 && ok; attempt++ {
+			// a fresh *Code per attempt (its caches are empty), 8 goroutines released together
+			fresh, err := Compile(q, WithModuleLoader(loader), WithEnvironLoader(func() []string { return []string{"A=1", "B=2"} }),
+				WithFunction("twice", 0, 0, func(v any, _ []any) any {
+					if n, ok := v.(int); ok {
+						return 2 * n
+					}
+					return v
+				}))
+			if err != nil {
+				return
+			}
+			start := make(chan struct{})
+			var wg sync.WaitGroup
+			bad := make([]bool, 8)
+			for g := 0; g < 8; g++ {
+				wg.Add(1)
+				go func(g int) {
+					defer wg.Done()
+					<-start
+					for r := 0; r < 10; r++ {
+						if !c06Same(hRun(fresh, input, 6), alone) {
+							bad[g] = true
+						}
+					}
+				}(g)
+			}
+			close(start)
+			wg.Wait()
+			for _, b := range bad {
+				ok = ok && !b
+			}
+		}
+		vassert(ok, "every concurrent run yields what the run yields alone")
+		return
+	}
+	vfreeze(code)
+	vfreeze(input)
+	vmonitor(2)
+	hRun(code, input, 6)
 	vmonitor(0)
 	vreach("end")
 }
